@@ -187,6 +187,15 @@ def l3common_corpus():
     # reversed entry that fails (P22)
     out.append(({"files": {b"g": F(b"a\nb\nc\n")}, "dirs": [], "applied": None, "series": b"p.patch -R\n",
                  "patches": {b"p.patch": b"--- a/g\n+++ b/g\n@@ -1,3 +1,3 @@\n a\n-X\n+b\n c\n@@ -7 +7 @@\n-q\n+r\n"}}, dict(base)))
+    # a patch that applies, followed by one that cannot be loaded (missing / unparseable / binary): the push ends with an
+    # error and leaves NOTHING of the first patch either - tree and applied-patches go together (seeded C05-h)
+    good = b"--- a/g\n+++ b/g\n@@ -1 +1 @@\n-a\n+b\n"
+    for second in (None, b"--- a/g\n+++ b/g\n@@ -1,2 +1 @@\n b\nfoo\n", b"diff --git a/g b/g\nGIT binary patch\nliteral 0\n"):
+        patches = {b"p1.patch": good}
+        if second is not None:
+            patches[b"p2.patch"] = second
+        out.append(({"files": {b"g": F(b"a\n"), b"h": F(b"keep\n")}, "dirs": [], "applied": None, "series": b"p1.patch\np2.patch\n",
+                     "patches": patches}, dict(base)))
     for w, c in list(out):
         c2 = dict(c)
         c2["threads"] = 2
